@@ -295,8 +295,51 @@ def make_cluster(rng, mode, exact=True):
     return {"op": "cluster", "mode": mode, "points": pts}
 
 
+def boundary_clusters(rng, mode, years):
+    """deterministic clusters at every month end of the given years: the
+    last day spelled 24:00 (each representation, same and other offsets)
+    against the next day's 00:00"""
+    for y in years:
+        y0 = R.days_before_year(mode, y)
+        acc = 0
+        for n in R.month_lengths(mode, y):
+            acc += n
+            last = y0 + acc - 1
+            inst = (last + 1) * 86400
+            pts = []
+            for rep in gen.REPS:
+                kw = gen.date_kwargs(mode, rep, last)
+                kw.update({"hour_of_day": 24})
+                pts.append(kw)
+                kw2 = gen.date_kwargs(mode, rep, last + 1)
+                kw2.update({"hour_of_day": 0, "minute_of_hour": 0,
+                            "second_of_minute": 0})
+                pts.append(kw2)
+            off = gen.rand_offset(rng)
+            pts.append(gen.tp_from_instant(rng, mode, inst, offset=off,
+                                           allow_2400=False))
+            pts.append(gen.tp_from_instant(rng, mode, inst - 1,
+                                           allow_2400=False))
+            kw = gen.date_kwargs(mode, rng.choice(gen.REPS), last)
+            kw.update({"hour_of_day": 24, "minute_of_hour": 0,
+                       "second_of_minute": 0})
+            kw.update(gen.zone_kwargs((1, 0)))
+            pts.append(kw)
+            yield {"op": "cluster", "mode": mode, "points": pts}
+
+
 def workload(ctx, repo):
     rng = ctx.rng
+    k = 0
+    for mode in R.MODES:
+        years = (2001, 2004) if ctx.tier == "quick" else \
+            (2001, 2004, 1900, 2000, 0, -1, 9999)
+        for case in boundary_clusters(rng, mode, years):
+            k += 1
+            if not ctx.mine(k):
+                continue
+            ctx.case = case
+            run_case(ctx, repo, case)
     n = 1500 if ctx.tier == "quick" else 6000
     for k in range(n):
         mode = R.MODES[k % 4] if k % 3 == 0 else "gregorian"
